@@ -26,9 +26,14 @@ import (
 	"fmt"
 	"sort"
 	"strings"
+	"sync"
 	"testing"
+	"time"
 
+	"github.com/ChainSafe/gossamer/dot/types"
 	kit "github.com/ChainSafe/gossamer/internal/verifkit"
+	"github.com/ChainSafe/gossamer/lib/common"
+	"github.com/ChainSafe/gossamer/lib/crypto/ed25519"
 	"github.com/libp2p/go-libp2p/core/peer"
 	"pgregory.net/rapid"
 )
@@ -50,6 +55,7 @@ const (
 type c22Voter struct {
 	key   int
 	env   *vEnv // nil for a Byzantine voter
+	hook  *c22HookBS
 	phase c22Phase
 	next  int   // sync cursor into the pool
 	nfin  int   // SetFinalisedHash calls already judged
@@ -63,6 +69,10 @@ type c22Msg struct {
 	descr string
 	from  int
 	mask  uint32 // voters (by key) that sync delivers it to
+	// decoded once, for the choice of the message of a split delivery
+	isVote bool
+	round  uint64
+	author int // key of the authority id of a vote message, -1 if none of the voters
 }
 
 // c22Sig is a precommit signature that exists on the network.
@@ -102,6 +112,9 @@ type c22Sim struct {
 	dropped      bool
 	excluded     int
 	violation    string
+
+	sigOK  map[c22TallyKey]bool // cache of the tally check (signature verifications)
+	splits int                  // split deliveries whose pause point was reached
 }
 
 func c22Children(tree *vTree, b int) []int {
@@ -127,7 +140,7 @@ func c22Deepest(tree *vTree, r int) int {
 
 func newC22Sim(n int, byz []int, parent []int, bests map[int]int, gate bool) (*c22Sim, error) {
 	sim := &c22Sim{n: n, tree: newVTree(parent), gate: gate, hpc: map[uint64]map[int]int{},
-		byzV: map[string]int{}, labels: map[string]bool{}, isoVictim: -1}
+		byzV: map[string]int{}, labels: map[string]bool{}, isoVictim: -1, sigOK: map[c22TallyKey]bool{}}
 	isByz := map[int]bool{}
 	for _, b := range byz {
 		isByz[b] = true
@@ -148,6 +161,11 @@ func newC22Sim(n int, byz []int, parent []int, bests map[int]int, gate bool) (*c
 				return nil, err
 			}
 			v.env = env
+			// the service talks to its block state through a wrapper in which the harness can
+			// hold one call (split delivery); without an armed pause it is transparent
+			v.hook = &c22HookBS{vBlockState: bs}
+			env.svc.blockState = v.hook
+			env.svc.messageHandler.blockState = v.hook
 		}
 		sim.voters = append(sim.voters, v)
 	}
@@ -197,8 +215,25 @@ func (sim *c22Sim) harvest(v *c22Voter) {
 		if !ok {
 			continue
 		}
-		sim.pool = append(sim.pool, c22Msg{wire: cm, descr: sim.describeWire(cm), from: v.key, mask: sim.allMask() &^ (1 << uint(v.key))})
+		sim.addMsg(cm, v.key, sim.allMask()&^(1<<uint(v.key)))
 	}
+}
+
+// addMsg puts a wire message on the harness-owned network.
+func (sim *c22Sim) addMsg(cm *ConsensusMessage, from int, mask uint32) int {
+	m := c22Msg{wire: cm, descr: sim.describeWire(cm), from: from, mask: mask, author: -1}
+	if d, err := decodeMessage(cm); err == nil {
+		if vm, ok := d.(*VoteMessage); ok {
+			m.isVote, m.round = true, vm.Round
+			for i := 0; i < sim.n; i++ {
+				if vPub(i) == vm.Message.AuthorityID {
+					m.author = i
+				}
+			}
+		}
+	}
+	sim.pool = append(sim.pool, m)
+	return len(sim.pool) - 1
 }
 
 // judge looks at new SetFinalisedHash calls of v: the oracle.
@@ -220,6 +255,7 @@ func (sim *c22Sim) judge(v *c22Voter) {
 		sim.finals = append(sim.finals, c22Final{v.key, b, c.round})
 		sim.logf("  => k%d finalised b%d r%d", v.key, b, c.round)
 	}
+	sim.checkTally(v)
 	// environment: the best block of a node is always on its finalised chain
 	bs := v.env.bs
 	bs.mu.Lock()
@@ -536,8 +572,7 @@ func (sim *c22Sim) byzVote(b int, stage Subround, blk int, round uint64, mask ui
 			sim.sigs = append(sim.sigs, c22Sig{b, round, blk, sig})
 		}
 	}
-	sim.pool = append(sim.pool, c22Msg{wire: cm, descr: sim.describeWire(cm), from: b, mask: mask})
-	return len(sim.pool) - 1
+	return sim.addMsg(cm, b, mask)
 }
 
 type c22Entry struct {
@@ -556,8 +591,7 @@ func (sim *c22Sim) byzCommit(b int, round uint64, target int, entries []c22Entry
 	if err != nil {
 		panic(err)
 	}
-	sim.pool = append(sim.pool, c22Msg{wire: cm, descr: sim.describeWire(cm), from: b, mask: mask})
-	return len(sim.pool) - 1
+	return sim.addMsg(cm, b, mask)
 }
 
 func (sim *c22Sim) maxRound() uint64 {
